@@ -6,6 +6,7 @@ package main
 import (
 	"fmt"
 	"math"
+	"runtime"
 	"sync"
 	"sync/atomic"
 
@@ -31,7 +32,8 @@ type callRec struct {
 	inv, res int64
 }
 
-// gauge ops: 0 Set v, 1 Add v, 2 Sub v, 3 Inc, 4 Dec, 5 Write ; counter ops: 0 Inc, 1 Add v, 2 Write
+// gauge ops: 0 Set v, 1 Add v, 2 Sub v, 3 Inc, 4 Dec, 5 Write ; counter ops: 0 Inc, 1 Add v, 2 Write,
+// 3 Add v through the AddWithExemplar entry point (the model's Add: same accumulator steps, same panic rule)
 func opSx(gauge bool, o op) string {
 	if gauge {
 		switch o.kind {
@@ -41,7 +43,7 @@ func opSx(gauge bool, o op) string {
 			return emit.C(o.kind)
 		}
 	}
-	if o.kind == 1 {
+	if o.kind == 1 || o.kind == 3 {
 		return emit.C(1, emit.F(o.v))
 	}
 	return emit.C(o.kind)
@@ -89,6 +91,8 @@ func doOp(gauge bool, g prometheus.Gauge, c prometheus.Counter, o op) (ret strin
 		c.Add(o.v)
 	case 2:
 		return emit.C(2, emit.F(counterVal(c)))
+	case 3:
+		c.(prometheus.ExemplarAdder).AddWithExemplar(o.v, prometheus.Labels{"trace": "t"})
 	}
 	return emit.C(0)
 }
@@ -236,19 +240,37 @@ func genOp(r *emit.Rng, gauge bool) op {
 			return op{kind: 5}
 		}
 	}
+	add := 1
+	if r.Chance(1, 4) {
+		add = 3 // the same amount through AddWithExemplar
+	}
 	switch r.Intn(10) {
 	case 0, 1:
 		return op{kind: 0}
 	case 2, 3:
-		return op{kind: 1, v: grid[r.Intn(len(grid))]}
+		return op{kind: add, v: grid[r.Intn(len(grid))]}
 	case 4:
-		return op{kind: 1, v: float64(1 + r.Intn(1000))}
+		return op{kind: add, v: float64(1 + r.Intn(1000))}
 	case 5:
 		vals := []float64{-1, -0.5, 0, math.Ldexp(1, 53), math.Ldexp(1, 63), math.Ldexp(1, 62), 0.1, 1e-300, math.Ldexp(1, 64)}
-		return op{kind: 1, v: vals[r.Intn(len(vals))]}
+		if is386 {
+			vals = vals[:len(vals)-1] // out-of-range float->uint64 conversion is platform-specific (the model's is amd64's)
+		}
+		return op{kind: add, v: vals[r.Intn(len(vals))]}
 	default:
 		return op{kind: 2}
 	}
+}
+
+// The same driver is also built for GOARCH=386 (streams *-386): 64-bit atomic operations need 8-byte alignment there,
+// which the struct layouts of counter.go and gauge.go have to guarantee (a misaligned field panics in sync/atomic).
+var is386 = runtime.GOARCH == "386"
+
+func streamName(n string) string {
+	if is386 {
+		return n + "-386"
+	}
+	return n
 }
 
 func runC01(c *cli.Ctx) error {
@@ -258,9 +280,12 @@ func runC01(c *cli.Ctx) error {
 		if gauge {
 			name = "gauge-sched"
 		}
-		w := emit.NewWriter(c.Out, "C01", name)
+		w := emit.NewWriter(c.Out, "C01", streamName(name))
 		schedules, programs, exhaustive := 0, 0, 0
 		budget := 1500 * c.Scale
+		if is386 {
+			budget = 300 * c.Scale
+		}
 		for schedules < budget {
 			nthreads := 2 + r.Intn(2)
 			progs := make([][]op, nthreads)
@@ -326,8 +351,12 @@ func runC01(c *cli.Ctx) error {
 		if gauge {
 			name = "gauge-stress"
 		}
-		w := emit.NewWriter(c.Out, "C01", name)
-		for it := 0; it < 60*c.Scale; it++ {
+		w := emit.NewWriter(c.Out, "C01", streamName(name))
+		nstress := 60 * c.Scale
+		if is386 {
+			nstress = 15 * c.Scale
+		}
+		for it := 0; it < nstress; it++ {
 			nthreads := 3 + r.Intn(2)
 			progs := make([][]op, nthreads)
 			for t := range progs {
